@@ -157,7 +157,17 @@ func cmdCheck(args []string) int {
 			to = 60
 		}
 	}
-	outDir := filepath.Join(*verif, "out", *prop)
+	// one directory per run (two runs of the same property may overlap); directories of finished runs are removed
+	// once they are older than half an hour
+	propOut := filepath.Join(*verif, "out", *prop)
+	if ents, err := os.ReadDir(propOut); err == nil {
+		for _, e := range ents {
+			if fi, err := e.Info(); err == nil && time.Since(fi.ModTime()) > 30*time.Minute {
+				os.RemoveAll(filepath.Join(propOut, e.Name()))
+			}
+		}
+	}
+	outDir := filepath.Join(propOut, fmt.Sprintf("run-%d", os.Getpid()))
 	os.RemoveAll(outDir)
 	os.MkdirAll(outDir, 0o755)
 	replayDir := filepath.Join(*verif, "replays", *prop)
@@ -517,6 +527,9 @@ func cmdCheck(args []string) int {
 		*prop, total, discharged, knownHits, violations, len(fnList), wall)
 	if violations > 0 {
 		return 1
+	}
+	if os.Getenv("VERIF_KEEP_SMT") == "" {
+		os.RemoveAll(outDir) // the queries of a clean run are not needed afterwards (regenerated on every run)
 	}
 	return 0
 }
